@@ -39,7 +39,7 @@ private:
 
     int push(Var &var)
     {
-      if (ptr >= 3) { return -1; }
+      if (ptr >= 8) { return -1; }
       stack[ptr++] = var;
 
       return 0;
@@ -47,7 +47,7 @@ private:
 
     int push_front(Var &var)
     {
-      if (ptr >= 3) { return -1; }
+      if (ptr >= 8) { return -1; }
 
       for (int n = ptr; n > 0; n--)
       {
@@ -133,7 +133,8 @@ private:
       }
     }
 
-    Var stack[3];
+    // One value more than there are levels of precedence.
+    Var stack[8];
     int ptr;
   };
 
@@ -146,7 +147,7 @@ private:
 
     void push(Operator &oper)
     {
-      assert(ptr < 2);
+      assert(ptr < 7);
       stack[ptr++] = oper;
     }
 
@@ -156,24 +157,10 @@ private:
       return stack[--ptr];
     }
 
-    Operator pop_first()
+    Operator &get_last()
     {
       assert(ptr > 0);
-      Operator value = stack[0];
-      stack[0] = stack[1];
-      ptr--;
-
-      return value;
-    }
-
-    int get_precedence_index()
-    {
-      assert(ptr > 0);
-
-      if (ptr == 1) { return 0; }
-
-      if (stack[0].precedence > stack[1].precedence) { return 1; }
-      return 0;
+      return stack[ptr - 1];
     }
 
     int size()      { return ptr; }
@@ -189,18 +176,20 @@ private:
     }
 
   private:
-    Operator stack[2];
+    // The operators waiting here are in order of rising precedence, so
+    // there is at most one of each level.
+    Operator stack[7];
     int ptr;
   };
 
   static bool need_symbol(int count)
   {
-    return count == 1 || count == 3;
+    return (count & 1) == 1;
   }
 
   static bool need_number(int count)
   {
-    return count == 0 || count == 2 || count == 4;
+    return (count & 1) == 0;
   }
 
   static int execute_stack(VarStack &var_stack, OperStack &oper_stack);
